@@ -6,6 +6,7 @@ import (
 	"math/big"
 	mbits "math/bits"
 	"math/cmplx"
+	"sync"
 	"testing"
 
 	"verif/internal/h"
@@ -53,6 +54,7 @@ type BGVMulCase struct {
 	Pat1   string    `json:"pat1"`
 	Pat2   string    `json:"pat2"`
 	Seed   uint64    `json:"seed"`
+	Reuse  bool      `json:"reuse,omitempty"` // the encoder was used before and the product is written into a plaintext that held another encoding
 }
 
 func (c BGVMulCase) RandSeed() uint64 { return c.Seed }
@@ -78,6 +80,7 @@ func genBGVMul(t *rapid.T) BGVMulCase {
 	c.Pat1 = bgvPatterns[rapid.IntRange(0, len(bgvPatterns)-1).Draw(t, "pat1")]
 	c.Pat2 = []string{"reduced", "uniform64", "boundary", "mix", "tm1"}[rapid.IntRange(0, 4).Draw(t, "pat2")]
 	c.Seed = rapid.Uint64().Draw(t, "seed")
+	c.Reuse = rapid.Bool().Draw(t, "reuse")
 	return c
 }
 
@@ -125,6 +128,19 @@ func runBGVMul(c BGVMulCase, rec *h.Rec) error {
 	ecd := bgv.NewEncoder(params)
 	ringQ := params.RingQ().AtLevel(level)
 
+	var ptReuse *rlwe.Plaintext
+	if c.Reuse {
+		ptReuse = bgv.NewPlaintext(params, level)
+		ptReuse.IsBatched = rng.Intn(2) == 0
+		ptReuse.Scale = rlwe.NewScaleModT(rng.Uint64()%(T-1)+1, T)
+		if err := ecd.Encode(fillU("reduced", T, n, rng), ptReuse); err != nil {
+			return h.Failf("C07:bgv:Encode:error", "warm-up Encode: %v", err)
+		}
+		if err := ecd.Decode(ptReuse, make([]int64, n)); err != nil {
+			return h.Failf("C07:bgv:Decode:error", "warm-up Decode: %v", err)
+		}
+	}
+	rec.Classf("reuse=%v", c.Reuse)
 	mk := func(v []uint64, s uint64) (*rlwe.Plaintext, error) {
 		pt := bgv.NewPlaintext(params, level)
 		pt.IsNTT = c.NTT
@@ -157,7 +173,11 @@ func runBGVMul(c BGVMulCase, rec *h.Rec) error {
 		r[i].Mul(r[i], tInv)
 		r[i].Mod(r[i], Ql)
 	}
-	pt3 := bgv.NewPlaintext(params, level)
+	pt3 := ptReuse
+	if pt3 == nil {
+		pt3 = bgv.NewPlaintext(params, level)
+	}
+	pt3.IsBatched = true
 	pt3.IsNTT = c.NTT
 	pt3.Scale = rlwe.NewScaleModT(mulmod(s1, s2, T), T)
 	bigToPoly(ringQ, r, qs, pt3)
@@ -219,6 +239,7 @@ type CKKSMulCase struct {
 	Drop1    int        `json:"drop1"`
 	Drop2    int        `json:"drop2"`
 	Seed     uint64     `json:"seed"`
+	Reuse    bool       `json:"reuse,omitempty"` // the encoder was used before and the product is written into a plaintext that held another encoding
 }
 
 func (c CKKSMulCase) RandSeed() uint64 { return c.Seed }
@@ -262,6 +283,7 @@ func genCKKSMul(t *rapid.T) CKKSMulCase {
 	c.Drop1 = drop("drop1")
 	c.Drop2 = drop("drop2")
 	c.Seed = rapid.Uint64().Draw(t, "seed")
+	c.Reuse = rapid.Bool().Draw(t, "reuse")
 	return c
 }
 
@@ -359,6 +381,20 @@ func runCKKSMul(c CKKSMulCase, rec *h.Rec) error {
 		pt.Scale = rlwe.NewScale(sc)
 		return pt, ecd.Encode(in, pt)
 	}
+	var ptReuse *rlwe.Plaintext
+	if c.Reuse {
+		// earlier life of the encoder and of the product plaintext: all slots, another scale, large values
+		ptReuse = ckks.NewPlaintext(params, level)
+		ptReuse.Scale = rlwe.NewScale(mkScale(k1+k2, c.S1Mant^c.S2Mant))
+		w, _ := toInput("c128", fillC("uniform", 1<<maxLogSlots, H, -k1-k2, 53, rng), 53)
+		if err := ecd.Encode(w, ptReuse); err != nil {
+			return h.Failf("C07:ckks:Encode:error", "warm-up Encode: %v", err)
+		}
+		if err := ecd.Decode(ptReuse, make([]complex128, 1<<maxLogSlots)); err != nil {
+			return h.Failf("C07:ckks:Decode:error", "warm-up Decode: %v", err)
+		}
+	}
+	rec.Classf("reuse=%v", c.Reuse)
 	pt1, err := mk(in1, sc1)
 	if err != nil {
 		return h.Failf("C07:ckks:Encode:error", "Encode: %v", err)
@@ -376,7 +412,10 @@ func runCKKSMul(c CKKSMulCase, rec *h.Rec) error {
 	} else {
 		prod = h.NegacyclicMul(a1, a2)
 	}
-	pt3 := ckks.NewPlaintext(params, level)
+	pt3 := ptReuse
+	if pt3 == nil {
+		pt3 = ckks.NewPlaintext(params, level)
+	}
 	pt3.LogDimensions.Cols = logSlots
 	pt3.Scale = pt1.Scale.Mul(pt2.Scale)
 	bigToPoly(ringQ, prod, qs, pt3)
@@ -555,26 +594,43 @@ func runFFT(c FFTCase, rec *h.Rec) error {
 		return nil
 	}
 
-	// (1) FFT against the definition: out[k] = sum_j in[j] * exp(2 pi i * (5^k mod 4n) * j / 4n)  (float64 path only)
-	if !arb {
-		in := buf.([]complex128)
+	// (1) FFT against the definition: out[k] = sum_j in[j] * exp(2 pi i * (5^k mod 4n) * j / 4n)
+	// float64 path: reference with math.Sincos; arbitrary-precision path (n <= 128): reference with 420-bit roots of unity
+	// obtained from i by half-angle formulas (independent of bignum.Cos).
+	if !arb || n <= 128 {
 		ref := make([]cval, n)
 		m := 4 * n
-		// magnitudes may exceed the float64 range after summation only for Exp near 1023; Exp <= 200 here
-		pow5 := 1
-		for k := 0; k < n; k++ {
-			var acc complex128
-			scale := math.Ldexp(1, -c.Exp) // keep the accumulation near 1
-			for j := 0; j < n; j++ {
-				idx := (pow5 * j) % m
-				s, co := math.Sincos(2 * math.Pi * float64(idx) / float64(m))
-				acc += in[j] * complex(scale, 0) * complex(co, s)
+		if !arb {
+			in := buf.([]complex128)
+			// magnitudes may exceed the float64 range after summation only for Exp near 1023; Exp <= 200 here
+			pow5 := 1
+			for k := 0; k < n; k++ {
+				var acc complex128
+				scale := math.Ldexp(1, -c.Exp) // keep the accumulation near 1
+				for j := 0; j < n; j++ {
+					idx := (pow5 * j) % m
+					s, co := math.Sincos(2 * math.Pi * float64(idx) / float64(m))
+					acc += in[j] * complex(scale, 0) * complex(co, s)
+				}
+				if cmplx.IsNaN(acc) || cmplx.IsInf(acc) {
+					return h.Failf("C07:harness", "reference DFT overflow")
+				}
+				ref[k] = cval{bf().SetMantExp(bfF(real(acc)), c.Exp), bf().SetMantExp(bfF(imag(acc)), c.Exp)}
+				pow5 = (pow5 * 5) % m
 			}
-			if cmplx.IsNaN(acc) || cmplx.IsInf(acc) {
-				return h.Failf("C07:harness", "reference DFT overflow")
+		} else {
+			roots := unityRoots(m)
+			pow5 := 1
+			for k := 0; k < n; k++ {
+				re, im := bf(), bf()
+				for j := 0; j < n; j++ {
+					w := roots[(pow5*j)%m]
+					re.Add(re, subB(mulB(told[j].re, w.re), mulB(told[j].im, w.im)))
+					im.Add(im, addB(mulB(told[j].re, w.im), mulB(told[j].im, w.re)))
+				}
+				ref[k] = cval{re, im}
+				pow5 = (pow5 * 5) % m
 			}
-			ref[k] = cval{bf().SetMantExp(bfF(real(acc)), c.Exp), bf().SetMantExp(bfF(imag(acc)), c.Exp)}
-			pow5 = (pow5 * 5) % m
 		}
 		if err := ecd.FFT(buf, logn); err != nil {
 			return fail(rec, "C07:ckks:FFT:error", "FFT: %v", err)
@@ -589,6 +645,7 @@ func runFFT(c FFTCase, rec *h.Rec) error {
 		if err := cmp("IFFT(FFT)", told, tol); err != nil {
 			return err
 		}
+		rec.Classf("definition:%s", path)
 	}
 	// (2) FFT(IFFT(x)) = x
 	if err := ecd.IFFT(buf, logn); err != nil {
@@ -607,6 +664,35 @@ func runFFT(c FFTCase, rec *h.Rec) error {
 }
 
 var _ = bignum.NewComplex
+
+var (
+	unityMu    sync.Mutex
+	unityCache = map[int][]cval{}
+)
+
+// unityRoots returns exp(2 pi i k / m), k = 0..m-1, m a power of two >= 4, at the oracle's working precision. The primitive
+// root comes from i = exp(i pi/2) by the half-angle formulas cos(x/2) = sqrt((1+cos x)/2), sin(x/2) = sin x / (2 cos(x/2)).
+func unityRoots(m int) []cval {
+	unityMu.Lock()
+	defer unityMu.Unlock()
+	if r, ok := unityCache[m]; ok {
+		return r
+	}
+	co, si := bf(), bfF(1)
+	for order := 4; order < m; order <<= 1 {
+		c2 := bf().Sqrt(quoB(addB(bfF(1), co), bfF(2)))
+		si = quoB(si, mulB(bfF(2), c2))
+		co = c2
+	}
+	out := make([]cval, m)
+	out[0] = cval{bfF(1), bf()}
+	for k := 1; k < m; k++ {
+		p := out[k-1]
+		out[k] = cval{subB(mulB(p.re, co), mulB(p.im, si)), addB(mulB(p.re, si), mulB(p.im, co))}
+	}
+	unityCache[m] = out
+	return out
+}
 
 var propFFT = h.NewProp("TestPropCKKSFFT", h.Budget{Quick: 400, Thorough: 6000}, genFFT, runFFT)
 
